@@ -18,6 +18,7 @@ import (
 	"cmp"
 	"encoding/hex"
 	"fmt"
+	"math"
 	"os"
 	"runtime/debug"
 	"sort"
@@ -62,10 +63,16 @@ func aBytes[T ~[]byte](v T) string {
 	if len(v) > wildLen || len(v) < 0 {
 		return "wild:byteslen=" + strconv.Itoa(len(v))
 	}
+	if v != nil && len(v) == 0 {
+		return "xe" // empty, not nil
+	}
 	return "x" + hex.EncodeToString([]byte(v))
 }
 
 func aFloat[T ~float32 | ~float64](v T) string {
+	if v == 0 && math.Signbit(float64(v)) {
+		return "negzero"
+	}
 	return strconv.FormatFloat(float64(v), 'g', -1, 64)
 }
 
